@@ -107,6 +107,14 @@ func c18Tiling(c *Ctx, r *Report, rule string) {
 						hi = p.lin(x.High)
 					}
 					groups[x.X] = append(groups[x.X], piece{lo, hi, "field " + f, true, b, c.ipos(x)})
+				case *ssa.Call:
+					// a delimiter located by a search: the byte at the returned position is the delimiter
+					if id := calleeID(x); (id == "bytes.IndexByte" || id == "slices.Index") && len(x.Call.Args) == 2 && isBytes(x.Call.Args[0].Type()) {
+						if _, isConst := x.Call.Args[1].(*ssa.Const); isConst {
+							lo := p.lin(x)
+							groups[x.Call.Args[0]] = append(groups[x.Call.Args[0]], piece{lo, addLin(lo, constLin(1)), "byte located by a search for a constant", false, b, c.ipos(x)})
+						}
+					}
 				case *ssa.IndexAddr:
 					if !isBytes(x.X.Type()) || x.Referrers() == nil {
 						continue
